@@ -716,6 +716,10 @@ func main() {
 	w("  envParseBase0 := %v\n", contains(pod, `strconv\.ParseUint\(env, 0, 64\)`))
 	w("  envEmptyIsDefault := %v\n", contains(pod, `if env := os\.Getenv\(key\); env == "" \{ return def \}`))
 	w("  envTooSmallIsLeMin := %v\n", contains(pod, `ret := int\(val\); ret <= min`))
+	// C04 / C16: EncodeObject caps the slice at len(buf), tests the result against len(buf)
+	eo := findFunc(root, "EncodeObject")
+	w("  encodeCapsAtLen := %v\n", contains(eo, `ret, err := reflect\.Append\(buf\[:0:len\(buf\)\], val\)`))
+	w("  encodeChecksLen := %v\n", contains(eo, `if len\(ret\) > len\(buf\) \{ return 0, fmt\.Errorf\(`) && contains(eo, `return len\(ret\), err \}$`))
 	// C15
 	decrements := true
 	nRec := 0
